@@ -21,6 +21,7 @@ import (
 	"fmt"
 	"os"
 	"os/exec"
+	"path/filepath"
 	"reflect"
 	"regexp"
 	"runtime/debug"
@@ -525,6 +526,9 @@ func runC04(c *Ctx) {
 		}
 		h.check(rt.api, rt.src, rt.opts, rt.env, o)
 	}
+	if c.Thorough() {
+		c04NativeFuzz(h)
+	}
 	// misuse of the API surface itself
 	h.check("expr.Run", "(nil program)", "", "nil", c04Call(func() (interface{}, error) { return expr.Run(nil, nil) }))
 	h.check("expr.Eval", "1", "", "expr.Env(option) passed as env", c04Call(func() (interface{}, error) { return expr.Eval("1", expr.Env(nil)) }))
@@ -649,4 +653,53 @@ func c04RunBombs(h *c04Run) {
 			handle(runChild(n))
 		}
 	}
+}
+
+// c04NativeFuzz: coverage-guided mutation (go test -fuzz, offline) as an additional search in the thorough tier
+func c04NativeFuzz(h *c04Run) {
+	r := h.c.R
+	h.mu.Lock()
+	var known []string
+	for k := range h.best {
+		known = append(known, k)
+	}
+	h.mu.Unlock()
+	sort.Strings(known)
+	os.RemoveAll("testdata/fuzz/FuzzC04")
+	args := []string{"test", "-tags", "verif", "-vet=off", "-run", "^$", "-fuzz", "^FuzzC04$", "-fuzztime", "150s"}
+	if vr := os.Getenv("VERIF_REPO"); vr != "" {
+		if rp, _ := filepath.EvalSymlinks(vr); rp != "/repo" && rp != "" {
+			if self, err := os.Executable(); err == nil {
+				args = append(args, "-modfile="+filepath.Join(filepath.Dir(self), "go.alt.mod"))
+			}
+		}
+	}
+	args = append(args, ".")
+	cmd := exec.Command("go", args...)
+	cmd.Env = append(os.Environ(), "C04_FUZZ_IGNORE="+strings.Join(known, ","))
+	var out bytes.Buffer
+	cmd.Stdout, cmd.Stderr = &out, &out
+	err := cmd.Run()
+	text := out.String()
+	if m := regexp.MustCompile(`execs: (\d+)`).FindAllStringSubmatch(text, -1); len(m) > 0 {
+		var n int
+		fmt.Sscan(m[len(m)-1][1], &n)
+		r.Count("fuzz:execs", n)
+	}
+	if err == nil {
+		r.Note("go test -fuzz FuzzC04 ran 150 s without finding a new failing input (search only; %d keys ignored)", len(known))
+		return
+	}
+	km := regexp.MustCompile(`KEY=(\S+) API=(\S+) SRCHEX=(\S+) OPTS=(.*?)(?: MSG=(.*))?\n`).FindStringSubmatch(text)
+	if km == nil {
+		r.Mismatch("c04-fuzz", "go test -fuzz", "runs", fxTail(text, 1500))
+		return
+	}
+	src := ""
+	if km[3] != "-" {
+		b, _ := hex.DecodeString(km[3])
+		src = string(b)
+	}
+	h.violate(km[1], "go test -fuzz found an input on which "+km[2]+" fails", km[2], src, km[4], "", "a result or a non-nil error", km[5])
+	os.RemoveAll("testdata/fuzz/FuzzC04")
 }
